@@ -1455,11 +1455,28 @@ def tab4(units, R):
                     kind = cval(mn.expr['r'])
         rq = required_before(cfg, b.id)
         found[text] = (nn, adv, kind, b, cval(rq) if rq is not None else 'none')
+    bnd_states, bnd_key = {}, None
+    try:
+        from . import bnd as _bnd
+        rec_ = _bnd._parse_buffer_record(u)
+        cps_ = [c_ for c_ in _bnd._cursor_params(u, fn, rec_) if c_[2] == 'buf']
+        if len(cps_) == 1:
+            an_ = _bnd.Analyzer(u, fn, {cps_[0][1]: 0}, {})
+            an_.run()
+            bnd_states, bnd_key = an_.states, cps_[0][1]
+    except AnalysisBroken:
+        bnd_states = {}
     for text, bit in LITERALS.items():
         if text not in found:
             R.ob('TAB4', fn, None, 'literal %s is recognised' % text, False, 'no comparison with "%s"' % text, key='lit:' + text)
             continue
         nn, adv, kind, b, req = found[text]
+        if req == 'none' and b.id in bnd_states:
+            # the guard is not spelled offset + S <= length: take what the bounds analysis knows at the comparison - on entry
+            # nothing is assumed readable, so the lower bound there is what the tests in front of the comparison demanded
+            lo_ = bnd_states[b.id].buf.get(bnd_key, (None, None))[0]
+            if lo_ is not None and lo_ >= 1:
+                req = lo_
         ok = nn == len(text) and adv == len(text) and kind == bit
         R.ob('TAB4', fn, b.expr, 'literal "%s": compared length %s, advance %s, kind %s' % (text, nn, adv, kind), ok,
              'all equal to strlen = %d and kind bit %d' % (len(text), bit) if ok else
